@@ -74,8 +74,19 @@ def gen_ctor_cases(rng, big):
         R = math.prod(tshape[k] for k in r)
         C = math.prod(tshape[k] for k in c)
         rd, cd = _forms(rng, r, c, N)
-        kind = rng.choice(["ok", "ok", "ok", "ok1d", "notshape", "baddims", "badcount", "regroup", "3d", "1d_notshape",
+        kind = rng.choice(["ok", "ok", "ok", "ok1d", "notshape", "baddims", "dupdims", "badcount", "regroup", "3d", "1d_notshape",
                            "emptydata", "none", "oob"])
+        if kind == "dupdims" and N < 2:
+            kind = "baddims"
+        if kind == "dupdims":
+            # a repeated mode in place of another mode of the SAME size: right length, right element count, no partition
+            ma, mb = rng.sample(range(N), 2)
+            tshape = list(tshape)
+            tshape[mb] = tshape[ma]
+            R = math.prod(tshape[k] for k in r)
+            C = math.prod(tshape[k] for k in c)
+            rd = [ma if k == mb else k for k in r]
+            cd = [ma if k == mb else k for k in c]
         a = {"dshape": [R, C], "rd": rd, "cd": cd, "tshape": tshape, "kind": kind}
         if kind == "ok1d":                       # 1-d data: becomes a row vector, so the row modes must have one cell
             a["dshape"] = [R * C]
@@ -363,18 +374,16 @@ def run_conv(c):
             ts = None if a["tshape"] is None else tuple(a["tshape"])
             M = ttb.tenmat(data, _arr(np, a["rd"]), _arr(np, a["cd"]), ts)
             out = {"ok": _obs_tenmat(np, M)}
-            if M.data.size > 0:
-                T = M.to_tensor()
-                out["back"] = tgen.obs_dense(np, T)
-                out["again"] = _obs_tenmat(np, T.to_tenmat(M.rindices.copy(), M.cindices.copy()))
+            if M.data.size > 0:      # the constructor's verdict is observed on its own; the conversions separately
+                out["back"] = _sub(lambda: tgen.obs_dense(np, M.to_tensor()))
+                out["again"] = _sub(lambda: _obs_tenmat(np, M.to_tensor().to_tenmat(M.rindices.copy(), M.cindices.copy())))
             return out
         if c.op == "sptenmat_ctor":
             subs = None if a["subs"] is None else np.array(a["subs"], dtype=int).reshape((len(a["subs"]), 2))
             vals = None if a["vals"] is None else np.array(a["vals"], dtype=float).reshape((len(a["vals"]), 1))
             M = ttb.sptenmat(subs, vals, _arr(np, a["rd"]), _arr(np, a["cd"]), tuple(a["tshape"]))
-            S = M.to_sptensor()
-            return {"ok": _obs_sptenmat(np, M), "back": tgen.obs_sparse(np, S),
-                    "again": _obs_sptenmat(np, S.to_sptenmat(M.rdims.copy(), M.cdims.copy()))}
+            return {"ok": _obs_sptenmat(np, M), "back": _sub(lambda: tgen.obs_sparse(np, M.to_sptensor())),
+                    "again": _sub(lambda: _obs_sptenmat(np, M.to_sptensor().to_sptenmat(M.rdims.copy(), M.cdims.copy())))}
         if c.op == "kfull":
             K = _mk_k(ttb, np, a["K"], a["shape"])
             return {"ok": tgen.obs_dense(np, K.full()), "double": _sub(lambda: tgen.obs_dense(np, K.double())),
@@ -539,6 +548,8 @@ def check_conv(c, o):
             return "false"
         if "back" not in o:
             return f"tm_ctor_ok {call} (Some {_gtm(ob)}) None None"
+        if "exc" in o["back"] or "exc" in o["again"]:
+            return f"tm_ctor_ok {call} (Some {_gtm(ob)}) None None"
         if not _ints_dense(o["back"]) or not _ints_dense(o["again"]["data"]):
             return "false"
         return (f"tm_ctor_ok {call} (Some {_gtm(ob)}) (Some {tgen.gdense(o['back']['shape'], o['back']['data'])}) "
@@ -551,6 +562,8 @@ def check_conv(c, o):
         if exc:
             return f"stm_ctor_ok {call} None None None"
         ob, bk, ag = o["ok"], o["back"], o["again"]
+        if "exc" in bk or "exc" in ag:
+            return f"stm_ctor_ok {call} (Some {_gstm2(ob)}) None None" if tgen.all_int(ob["vals"]) else "false"
         if not (tgen.all_int(ob["vals"]) and tgen.all_int(bk["vals"]) and tgen.all_int(ag["vals"])):
             return "false"
         if ob["nnz"] != len(ob["subs"]) or bk["nnz"] != len(bk["subs"]) or ag["nnz"] != len(ag["subs"]):
@@ -674,7 +687,9 @@ def _oracle_tm_ctor(a, o):
     ob = o["ok"]
     if ob["r"] != r or ob["c"] != c_ or ob["tshape"] != ts or ob["data"]["data"] != a["data"]:
         return "constructed tenmat reports other modes / shape / data than it was given"
-    if "back" not in o or o["back"]["shape"] != ts:
+    if "back" not in o or "exc" in o["back"] or "exc" in o["again"]:
+        return "to_tensor() / to_tenmat() of an accepted tenmat raised"
+    if o["back"]["shape"] != ts:
         return "to_tensor() of an accepted tenmat has the wrong shape"
     rs, cs = [ts[k] for k in r], [ts[k] for k in c_]
     R, C = math.prod(rs), math.prod(cs)
@@ -718,12 +733,13 @@ def _oracle_stm_ctor(a, o):
     got = [(tuple(x), v) for x, v in zip(ob["subs"], ob["vals"])]
     if dict(got) != want or len(got) != len(want) or ob["nnz"] != len(want):
         return "stored triples do not hold the per-position sums of the given values"
-    if [k for k, _ in got] != sorted(want):
-        return "stored triples are not in increasing (row, col) order"
+    # (the stored ORDER is compared with the model in Coq; the property itself does not pin it, so it is not judged here)
     if ob["r"] != r or ob["c"] != c_ or ob["tshape"] != ts:
         return "constructed sptenmat reports other modes / shape than it was given"
     rs, cs = [ts[k] for k in r], [ts[k] for k in c_]
     bk = o["back"]
+    if "exc" in bk or "exc" in o["again"]:
+        return "to_sptensor() / to_sptenmat() of an accepted sptenmat raised"
     img = {}
     for sub, v in zip(bk["subs"], bk["vals"]):
         img[(_lin(rs, [sub[k] for k in r]), _lin(cs, [sub[k] for k in c_]))] = v
